@@ -21,7 +21,10 @@ pub broadcast axiom fn axiom_str_key_model<'a>()
 // ---- data types of /repo --------------------------------------------------------------------------
 //@item file=src/lib.rs kind=struct name=Position
 //@item file=src/blocks.rs kind=struct name=Block
-#[derive(Clone, Copy, PartialEq)]
+// /repo derives `Clone, Copy, Serialize_repr, EnumString, Debug, PartialEq`; the serde/strum derives are
+// not available here. `Structural` is Verus' marker that the derived `PartialEq` is structural equality
+// (checked by its derive: a field-less enum), so that `==` on the enum means spec equality.
+#[derive(Clone, Copy, PartialEq, Structural)]
 //@item file=src/blocks.rs kind=enum name=BlockSeverity
 //@item file=src/blocks.rs kind=struct name=BlockWithContext
 //@item file=src/blocks.rs kind=struct name=FileBlocks
@@ -54,6 +57,16 @@ pub type SpecViolations = Map<PathBuf, Seq<Violation>>;
 
 pub open spec fn vmap(m: Map<PathBuf, Vec<Violation>>) -> SpecViolations {
     m.map_values(|v: Vec<Violation>| v@)
+}
+
+/// `vmap` keeps the keys and views the values
+pub proof fn lemma_vmap(m: Map<PathBuf, Vec<Violation>>)
+    ensures
+        forall|f: PathBuf| #[trigger] vmap(m).contains_key(f) <==> m.contains_key(f),
+        forall|f: PathBuf| m.contains_key(f) ==> #[trigger] vmap(m)[f] == m[f]@,
+        vmap(m).dom() == m.dom(),
+{
+    assert(vmap(m).dom() =~= m.dom());
 }
 
 pub trait ValidatorSync: Send + Sync {
